@@ -44,4 +44,60 @@ def skippedDirShape : Bool :=
   (Restic.Gen.restorer_traverseTreeInner_calls.filter (· == "visitor.skippedDir")).length == 1 &&
   (Restic.Gen.restorer_traverseTree_calls.filter (· == "visitor.skippedDir")).length == 1
 
+/-- calls that do not operate on the file system or the control flow the model transcribes:
+    logging, error wrapping, progress reporting, conversions -/
+def noiseCalls : List String :=
+  ["debug.Log", "string", "len", "append", "make", "int64", "uint64", "panic", "errors.Is", "errors.Wrap",
+   "errors.Errorf", "errors.New", "errors.WithStack", "fmt.Errorf", "res.opts.Progress.AddProgress",
+   "res.opts.Progress.AddFile", "res.opts.Progress.AddSkippedFile", "res.opts.Progress.ReportDeletion",
+   "treeID.Str", "ctx.Err"]
+
+/-- the operative calls of a function, in order -/
+def ops (calls : List String) : List String := calls.filter fun c => !noiseCalls.contains c
+
+/-- **Closed world over the transcribed call graph.** Every function the model transcribes makes
+    exactly the operative calls the transcription has, in this order. A new helper (for instance
+    a second, unchecked way to apply node metadata) can only be reached through a new call in
+    one of these functions and therefore changes one of these lists. In particular
+    `fs.NodeRestoreMetadata` is called from `restoreNodeMetadataTo` only (behind `fs.Lstat`), and
+    `restoreNodeTo`, `restoreHardlinkAt` and the visitors of `RestoreTo` apply metadata through
+    `res.restoreNodeMetadataTo` only. -/
+def callGraphClosed : Bool :=
+  ops Restic.Gen.restorer_restoreNodeMetadataTo_calls == ["fs.Lstat", "fi.Mode", "fs.NodeRestoreMetadata"] &&
+  ops Restic.Gen.restorer_restoreNodeTo_calls == ["fs.Remove", "fs.NodeCreateAt", "res.restoreNodeMetadataTo"] &&
+  ops Restic.Gen.restorer_restoreHardlinkAt_calls == ["fs.Remove", "fs.Link", "res.restoreNodeMetadataTo"] &&
+  ops Restic.Gen.restorer_ensureSingleDir_calls == ["fs.Lstat", "fi.IsDir", "fs.Remove", "fs.MkdirAll"] &&
+  ops Restic.Gen.restorer_ensureDir_calls ==
+    ["filepath.Rel", "strings.HasPrefix", "ensureSingleDir", "strings.Split", "filepath.Join", "ensureSingleDir"] &&
+  ops Restic.Gen.restorer_isDirBelow_calls ==
+    ["filepath.Rel", "strings.HasPrefix", "fs.Lstat", "fi.IsDir", "strings.Split", "filepath.Join", "fs.Lstat", "fi.IsDir"] &&
+  ops Restic.Gen.restorer_removeUnexpectedFiles_calls ==
+    ["fs.NewLocal", "fs.Readdirnames", "toComparableFilename", "toComparableFilename", "filepath.Join",
+     "filepath.Join", "fs.HasPathPrefix", "res.SelectFilter", "filepath.Walk", "fs.RemoveAll"] &&
+  ops Restic.Gen.restorer_withOverwriteCheck_calls ==
+    ["shouldOverwrite", "res.verifyFile", "matches.NeedsRestore", "cb"] &&
+  ops Restic.Gen.restorer_shouldOverwrite_calls == ["fs.Lstat", "fi.ModTime", "node.ModTime.After"] &&
+  ops Restic.Gen.restorer_traverseTree_calls ==
+    ["visitor.enterDir", "res.sanitizeError", "res.traverseTreeInner", "visitor.leaveDir", "res.sanitizeError",
+     "visitor.skippedDir", "res.sanitizeError"] &&
+  ops Restic.Gen.restorer_traverseTreeInner_calls ==
+    ["data.LoadTree", "res.sanitizeError", "res.sanitizeError", "filepath.Join", "filepath.Base",
+     "res.sanitizeError", "filepath.Join", "filepath.Join", "fs.HasPathPrefix", "res.sanitizeError",
+     "res.SelectFilter", "visitor.enterDir", "res.sanitizeError", "res.traverseTreeInner", "res.sanitizeError",
+     "visitor.leaveDir", "res.sanitizeError", "visitor.skippedDir", "res.sanitizeError", "visitor.visitNode",
+     "res.sanitizeError"] &&
+  ops Restic.Gen.restorer_RestoreTo_calls ==
+    ["filepath.IsAbs", "filepath.Abs", "fs.MkdirAll", "data.NewHardlinkIndex", "res.repo.Connections",
+     "res.repo.ChunkerFactory", "res.repo.ChunkerFactory().ZeroChunk", "newFileRestorer",
+     -- first pass: enterDir, visitNode
+     "res.ensureDir", "filepath.Dir", "res.ensureDir", "idx.Has", "idx.Add", "filerestorer.addFile",
+     "res.trackFile", "res.withOverwriteCheck", "res.traverseTree", "filerestorer.restoreFiles",
+     -- second pass: visitNode
+     "filepath.Dir", "res.ensureDir", "res.restoreNodeTo", "res.withOverwriteCheck", "idx.Has", "idx.Value",
+     "idx.Value", "filerestorer.targetPath", "res.restoreHardlinkAt", "res.withOverwriteCheck",
+     "res.hasRestoredFile", "res.restoreNodeMetadataTo",
+     -- leaveDir, skippedDir
+     "res.ensureDir", "res.removeUnexpectedFiles", "res.restoreNodeMetadataTo", "isDirBelow",
+     "res.removeUnexpectedFiles", "res.traverseTree"]
+
 end Restic.Model.RestoreTree
